@@ -10,7 +10,6 @@
 //! spelling of numbers as given and must reproduce the sign / spacing / elision / trimming rules.
 //! Observation: `<printed text> # <the real parser's answer on the printed text>`; the Python oracle compares
 //! the parse-back with the original exactly (default) or within half a unit of the last decimal.
-use crate::polyio::*;
 use crate::util::*;
 use spindalis::regressors::linear::LinearModel;
 use spindalis_core::polynomials::structs::{IntermediatePolynomial, PolynomialTraits, SimplePolynomial};
